@@ -37,6 +37,15 @@ func init() {
 			h := sha256.Sum256(b)
 			content[ns.Name] = hex.EncodeToString(h[:8])
 		}
+		nsrefs := map[string][]string{}
+		for _, ns := range env.Namespaces {
+			names := []string{}
+			for _, r := range ns.References {
+				names = append(names, r.Name)
+			}
+			nsrefs[ns.Name] = names
+		}
+		resp["nsrefs"] = nsrefs
 		refs := []string{}
 		for _, r := range p.GetAllReferencedPackages() {
 			refs = append(refs, r.Namespace+"@"+r.PackageDir())
